@@ -97,3 +97,11 @@ func (p *Processor) VerifAge(d time.Duration) {
 		}
 	}
 }
+
+// VerifResetCleanupTicker changes the period of the Run loop's cleanup ticker (30 s in production). Call it only after
+// Run has started (the ticker is created there).
+func (p *Processor) VerifResetCleanupTicker(d time.Duration) {
+	if p.cleanup != nil {
+		p.cleanup.Reset(d)
+	}
+}
